@@ -37,9 +37,14 @@ fn lit_str(e: &Expr) -> Option<String> {
   None
 }
 
-/// `Some("x".to_string())` / `Some(String::new())`
+/// `Some("x".to_string())` / `Some(String::new())`; on a non-`Option` member the bare `"x".to_string()` / `String::new()`
 fn default_string(ts: proc_macro2::TokenStream) -> Option<String> {
   let e: Expr = syn::parse2(ts).ok()?;
+  match &e {
+    Expr::MethodCall(m) if m.method == "to_string" && m.args.is_empty() => return lit_str(&m.receiver),
+    Expr::Call(c2) if facts::norm(&c2.func) == "String::new" && c2.args.is_empty() => return Some(String::new()),
+    _ => {}
+  }
   let Expr::Call(c) = e else { return None };
   let Expr::Path(p) = &*c.func else { return None };
   if !p.path.is_ident("Some") || c.args.len() != 1 {
